@@ -132,7 +132,7 @@ def generate(st):
     cfg = {
         'n_ops': sw.choice([5, 8, 12, 16, 24, 40] + ([60, 90] if getattr(st, 'deep', False) else [])),
         'max_rows': sw.choice([2, 3, 4, 6, 6, 25] + ([40] if getattr(st, 'deep', False) else [])),
-        'cols': sorted(sw.sample(COLS, sw.randint(2, 6))),
+        'cols': sorted(sw.sample(COLS, sw.randint(2, 6)) + (['data'] if sw.random() < 0.2 else []) + (['columns'] if sw.random() < 0.06 else [])),
         'cells': sorted(sw.sample(range(len(CELLS)), sw.randint(3, len(CELLS)))),
         'faulty': sw.random() < 0.6,
         'off': sorted(sw.sample(OPS[4:31], sw.randint(0, 8))),
@@ -226,7 +226,7 @@ def _gen_op(o, g, f, cfg, cells, cols, models, rows_n, cell, spec_for):
                 items.append([c, {'list': [enc(cell())]}])
             else:
                 items.append([c, {'tuple': [enc(cell()) for _ in range(n)]}])
-        return {'op': o, 'items': items, 'via': g.choice(['dict', 'kw'])}
+        return {'op': o, 'items': items, 'via': g.choice(['dict', 'kw']) if not any(c in ('data', 'columns') for c, _ in items) else 'dict'}
     if o == 'new_rows':
         n = rows_n()
         hs = g.sample(cols, g.randint(1, len(cols)))
@@ -243,7 +243,7 @@ def _gen_op(o, g, f, cfg, cells, cols, models, rows_n, cell, spec_for):
         for c in cs[2:]:
             items.append([c, {'scalar': enc(cell())}])
         g.shuffle(items)
-        return {'op': o, 'items': items, 'via': g.choice(['dict', 'kw'])}
+        return {'op': o, 'items': items, 'via': g.choice(['dict', 'kw']) if not any(c in ('data', 'columns') for c, _ in items) else 'dict'}
     if not models:
         return None
     t = slot()
@@ -690,8 +690,6 @@ def model_apply(op, models):
         mp = {a: b for a, b in op['map']}
         if any(a not in m.cols for a in mp) or any(b in m.cols for b in mp.values()) or len(set(mp.values())) != len(mp):
             return ('skip',)
-        if any(b in ('data', 'columns') for b in mp.values()):
-            return ('skip',)
         if op.get('via') in ('suffix', 'prefix', 'callable'):
             exp = {c: (c + '_s') if op['via'] == 'suffix' else ('p_' + c) if op['via'] == 'prefix' else (c + c) for c in m.cols}
             if mp != exp:
@@ -1045,7 +1043,7 @@ def real_apply(op, reals, dictable):
         return dictable([{c: dec(v) for c, v in r} for r in op['records']])
     if o in ('new_columns', 'new_reject'):
         items = [(c, _as_values(spec)[0]) for c, spec in op['items']]
-        if op.get('via') == 'kw':
+        if op.get('via') == 'kw' and not any(c in ('data', 'columns') for c, _ in items):
             return dictable(**dict(items))
         return dictable(dict(items))
     if o == 'new_rows':
